@@ -105,6 +105,9 @@ def _container_ids(v, acc=None):
         acc.add(id(v))
         for x in v:
             _container_ids(x, acc)
+    elif type(v) is tuple:
+        for x in v:  # a tuple itself may be shared; the mutable containers reached through it may not
+            _container_ids(x, acc)
     return acc
 
 
@@ -134,6 +137,16 @@ def check_case(case, rec, lib, sp=None):
         return
     if _container_ids(payload) & _container_ids(env["signed"]):
         rec.violation("wrap/payload-aliased", "envelope shares (part of) the caller's payload object", case)
+    if rng.random() < 0.15:
+        # the same for a payload holding tuples (a supported serializable type): nothing mutable reached through a tuple is shared
+        # with the caller's object or with another envelope wrapped from it
+        tp = {"ranges": ([1, 2], [3, {"k": [4]}]), "p": copy.deepcopy(payload) if type(payload) in (dict, list) else [payload]}
+        e1, e2 = boundary.call(lib, S.wrap_as_signable, tp), boundary.call(lib, S.wrap_as_signable, tp)
+        rec.count("tuple_payload_wraps")
+        if e1.accepted and e2.accepted:
+            a, b, c = _container_ids(tp), _container_ids(e1.value["signed"]), _container_ids(e2.value["signed"])
+            if (a & b) or (a & c) or (b & c):
+                rec.violation("wrap/payload-aliased/through-tuple", "containers reached through a tuple are shared between the payload and / or two envelopes", case)
     for k, v in pre:
         env["signatures"][k] = copy.deepcopy(v)
     expected = {k: copy.deepcopy(v) for k, v in pre}
